@@ -2482,6 +2482,67 @@ def _splice_starred_displays(mods: dict[str, Module], log: list[str]) -> None:
         log.append(f"{n} starred display(s) / `**` dict display(s) spliced into their call")
 
 
+def _sqlite_transaction_blocks(mods: dict[str, Module], log: list[str]) -> None:
+    """`with C:` where C is a sqlite3 connection (bound to `sqlite3.connect(...)`, to a same-module helper that returns one, or the `as` name of a
+    `closing(<such a call>)` item) is the transaction block `try: BODY; C.commit() except BaseException: C.rollback(); raise` - what Connection.__exit__ does
+    (it does not close the connection)."""
+    n = 0
+    for mod in mods.values():
+        openers = set()
+        for q, _, fn in _functions_of(mod):
+            rets = [r for r in ast.walk(fn) if isinstance(r, ast.Return) and r.value is not None]
+            if rets and all(isinstance(r.value, ast.Call) and ast.unparse(r.value.func) == "sqlite3.connect" for r in rets):
+                openers.add(fn.name)
+
+        def is_open(e: ast.expr) -> bool:
+            if isinstance(e, ast.Call):
+                d = ast.unparse(e.func)
+                if d == "sqlite3.connect" or d in openers:
+                    return True
+                if d in ("contextlib.closing", "closing") and len(e.args) == 1:
+                    return is_open(e.args[0])
+            return False
+        for q, _, fn in _functions_of(mod):
+            conns = {t.id for st in ast.walk(fn) if isinstance(st, ast.Assign) and is_open(st.value) for t in st.targets if isinstance(t, ast.Name)}
+            for w in ast.walk(fn):
+                if isinstance(w, ast.With):
+                    for it in w.items:
+                        if is_open(it.context_expr) and isinstance(it.optional_vars, ast.Name) and ast.unparse(it.context_expr.func) in ("contextlib.closing", "closing"):
+                            conns.add(it.optional_vars.id)
+            if not conns:
+                continue
+            changed = True
+            while changed:
+                changed = False
+                for owner in ast.walk(fn):
+                    for fld in ("body", "orelse", "finalbody"):
+                        blk = getattr(owner, fld, None)
+                        if not (isinstance(blk, list) and blk and isinstance(blk[0], ast.stmt)):
+                            continue
+                        for i, w in enumerate(blk):
+                            if not isinstance(w, ast.With):
+                                continue
+                            ks = [k for k, it in enumerate(w.items) if isinstance(it.context_expr, ast.Name) and it.context_expr.id in conns and it.optional_vars is None]
+                            if not ks:
+                                continue
+                            k = ks[0]
+                            c = w.items[k].context_expr.id
+                            inner_body = w.body if k + 1 == len(w.items) else [ast.copy_location(ast.With(items=w.items[k + 1:], body=w.body), w)]
+
+                            def call(meth: str) -> ast.stmt:
+                                return ast.copy_location(ast.Expr(value=ast.Call(func=ast.Attribute(value=ast.Name(id=c, ctx=ast.Load()), attr=meth, ctx=ast.Load()), args=[], keywords=[])), w)
+                            tr = ast.copy_location(ast.Try(body=[*inner_body, call("commit")], handlers=[ast.ExceptHandler(type=ast.Name(id="BaseException", ctx=ast.Load()), name=None,
+                                                                                                                         body=[call("rollback"), ast.copy_location(ast.Raise(exc=None, cause=None), w)])],
+                                                           orelse=[], finalbody=[]), w)
+                            blk[i] = tr if k == 0 else ast.copy_location(ast.With(items=w.items[:k], body=[tr]), w)
+                            ast.fix_missing_locations(blk[i])
+                            n += 1
+                            changed = True
+                            break
+    if n:
+        log.append(f"{n} `with <sqlite3 connection>:` block(s) read as try / commit / except: rollback; raise")
+
+
 def _exitstack_to_try(mods: dict[str, Module], log: list[str]) -> None:
     """`with contextlib.ExitStack() as stack: A; stack.callback(f, *a); B` (callbacks registered by top-level statements of the body, `stack` used for nothing
     else) is `A; try: B finally: f(*a)` - callbacks run in reverse order of registration, whatever way the body is left."""
@@ -2822,6 +2883,28 @@ RERAISING_TRY: list[dict] = []
 RERAISING_TRY_NODES: list[tuple[dict, list[ast.stmt], ast.ExceptHandler]] = []   # the same records with the statements themselves (for rules about exceptions)
 
 
+def _handler_only_reports(h: ast.ExceptHandler) -> bool:
+    """The handler does nothing but report and raise: raises, bindings of locals to call-free or message-building expressions, print / logging / warnings calls, and
+    `if` over those.  A handler that calls anything else (rollback, close, unlink, a reset) has an effect the body-only reading would lose."""
+    def ok_call(c: ast.Call) -> bool:
+        d = ast.unparse(c.func)
+        root = d.split(".")[0]
+        return d in ("print", "str", "repr", "type", "format", "len", "isinstance", "getattr", "warnings.warn", "textwrap.dedent") or root in ("logger", "logging", "log", "_logger", "LOGGER") \
+            or d.endswith((".format", ".join", ".with_traceback", ".add_note")) or (d[:1].isupper() or "." in d and d.split(".")[-1][:1].isupper())      # building the exception to raise
+
+    def ok(st: ast.stmt) -> bool:
+        if isinstance(st, (ast.Raise, ast.Pass)):
+            return all(ok_call(c) for c in ast.walk(st) if isinstance(c, ast.Call))
+        if isinstance(st, (ast.Assign, ast.AnnAssign)) and all(isinstance(t, ast.Name) for t in (st.targets if isinstance(st, ast.Assign) else [st.target])):
+            return all(ok_call(c) for c in ast.walk(st) if isinstance(c, ast.Call))
+        if isinstance(st, ast.Expr):
+            return isinstance(st.value, ast.Constant) or (isinstance(st.value, ast.Call) and all(ok_call(c) for c in ast.walk(st.value) if isinstance(c, ast.Call)))
+        if isinstance(st, ast.If):
+            return all(ok_call(c) for c in ast.walk(st.test) if isinstance(c, ast.Call)) and all(ok(b) for b in [*st.body, *st.orelse])
+        return False
+    return all(ok(st) for st in h.body)
+
+
 def _flatten_reraising_try(mods: dict[str, Module], log: list[str]) -> None:
     """`try: BODY except E as e: ...; raise ...` (no else / finally, every handler ends in a raise on every path) runs BODY and nothing else whenever no
     exception is raised: for the rules that read values it *is* BODY.  What the handlers raise is recorded (RERAISING_TRY) for the rules about exceptions."""
@@ -2842,7 +2925,7 @@ def _flatten_reraising_try(mods: dict[str, Module], log: list[str]) -> None:
                         hd.body = rewrite(hd.body)
                     for cs in getattr(st, "cases", []) or []:
                         cs.body = rewrite(cs.body)
-                    if isinstance(st, ast.Try) and st.handlers and not st.orelse and not st.finalbody and all(_always_raises(h.body) for h in st.handlers):
+                    if isinstance(st, ast.Try) and st.handlers and not st.orelse and not st.finalbody and all(_always_raises(h.body) and _handler_only_reports(h) for h in st.handlers):
                         for h in st.handlers:
                             forms = []
                             for r in [x for b in h.body for x in ast.walk(b) if isinstance(x, ast.Raise)]:
@@ -3528,6 +3611,7 @@ def canonicalise(mods: dict[str, Module]) -> dict:
     _map_to_comprehension(mods, cm_log)
     _append_loops_to_comprehensions(mods, cm_log)
     _exitstack_to_try(mods, cm_log)
+    _sqlite_transaction_blocks(mods, cm_log)
     _flatten_reraising_try(mods, cm_log)
     _see_through_value_memos(mods, inv, cm_log)
     _apply_trampolines(mods, inv, cm_log)
